@@ -91,3 +91,26 @@ Proof.
   repeat split; try reflexivity;
   (match goal with |- ?F _ _ _ _ = _ => unfold F end; cbv zeta; val_eq; ring).
 Qed.
+
+(* ---- only w^2 enters the model: a retrograde body (Venus, Uranus, Pluto have negative rates in the shipped table) gets
+   the same constants, gravity, potential and form factor; in particular no entry point rejects w < 0 ------------------ *)
+Ltac even_w w :=
+  assert (E1 : (- w)^2 = w^2) by ring; assert (E2 : - w * - w = w * w) by ring;
+  cbv zeta; rewrite ?E1, ?E2; reflexivity.
+
+Lemma even_in_w a f GM w lat h :
+  C16_consts_R a f GM (- w) = C16_consts_R a f GM w /\ C16_ge_R a f GM (- w) = C16_ge_R a f GM w /\
+  C16_gp_R a f GM (- w) = C16_gp_R a f GM w /\ C16_g_R a f GM (- w) lat h = C16_g_R a f GM w lat h /\
+  C16_g0_R a f GM (- w) lat = C16_g0_R a f GM w lat /\ C16_ref_U0_J2_R a f GM (- w) = C16_ref_U0_J2_R a f GM w /\
+  C16_gmean_R a f GM (- w) = C16_gmean_R a f GM w /\ C16_wgs_g_R a f GM (- w) lat h = C16_wgs_g_R a f GM w lat h.
+Proof.
+  repeat split.
+  - unfold C16_consts_R; even_w w.
+  - unfold C16_ge_R; even_w w.
+  - unfold C16_gp_R; even_w w.
+  - unfold C16_g_R; even_w w.
+  - unfold C16_g0_R; even_w w.
+  - unfold C16_ref_U0_J2_R; even_w w.
+  - unfold C16_gmean_R; even_w w.
+  - unfold C16_wgs_g_R; even_w w.
+Qed.
